@@ -13,6 +13,7 @@ import (
 	"github.com/FollowTheProcess/spok/ast"
 	"github.com/FollowTheProcess/spok/iostream"
 	"github.com/FollowTheProcess/spok/shell"
+	"github.com/FollowTheProcess/spok/simhook"
 	"github.com/fatih/color"
 )
 
@@ -37,9 +38,17 @@ func (t *Task) Run(runner shell.Runner, stream iostream.IOStream, env []string) 
 	echoStyle := color.New(color.Bold)
 
 	var results shell.Results
+	cmdIndex := -1
 	for _, cmd := range t.Commands {
+		cmdIndex++
+		if simhook.Enabled {
+			simhook.Point("task.cmd.before", fmt.Sprintf("%s#%d", t.Name, cmdIndex))
+		}
 		echoStyle.Fprintln(stream.Stdout, cmd)
 		result, err := runner.Run(cmd, stream, t.Name, env)
+		if simhook.Enabled {
+			simhook.Point("task.cmd.after", fmt.Sprintf("%s#%d", t.Name, cmdIndex))
+		}
 		if err != nil {
 			return nil, err
 		}
